@@ -169,7 +169,7 @@ impl LuaEngine {
         }).map_err(|e| FerrousError::LuaError(e.to_string()))?;
         
         let storage_ref_pcall = ctx.storage.clone();
-        // redis.pcall: Errors return nil, script continues
+        // redis.pcall: Errors are returned as a table {err = message}, script continues
         let redis_pcall = lua.create_function(move |lua_ctx, cmd: MultiValue| -> LuaResult<LuaValue> {
             Self::execute_unified_redis_command(&storage_ref_pcall, lua_ctx, cmd, db_index, true)
         }).map_err(|e| FerrousError::LuaError(e.to_string()))?;
@@ -329,7 +329,7 @@ impl LuaEngine {
     }
     
     /// Handle command errors with proper Redis semantics
-    fn handle_command_error_with_context(_lua_ctx: &Lua, error_msg: String, is_pcall: bool) -> LuaResult<LuaValue> {
+    fn handle_command_error_with_context(lua_ctx: &Lua, error_msg: String, is_pcall: bool) -> LuaResult<LuaValue> {
         // The command's own error code (WRONGTYPE, NOGROUP ...) is kept
         let formatted_error = if has_error_code(&error_msg) {
             error_msg
@@ -338,8 +338,10 @@ impl LuaEngine {
         };
         
         if is_pcall {
-            // redis.pcall: Return nil, script continues
-            Ok(LuaValue::Nil)
+            // redis.pcall: Return the error as a table {err = message}, script continues
+            let error_table = lua_ctx.create_table()?;
+            error_table.set("err", formatted_error)?;
+            Ok(LuaValue::Table(error_table))
         } else {
             // redis.call: Abort script execution immediately
             Err(mlua::Error::RuntimeError(format!("REDIS_CALL_ABORT:{}", formatted_error)))
@@ -395,6 +397,11 @@ impl LuaEngine {
                 RespFrame::BulkString(Some(Arc::new(s.as_bytes().to_vec())))
             }
             LuaValue::Table(table) => {
+                // An error table {err = message}, as redis.pcall returns it, is an error reply
+                if let Ok(LuaValue::String(msg)) = table.raw_get::<LuaValue>("err") {
+                    return RespFrame::error(msg.as_bytes().to_vec());
+                }
+                
                 // Convert Lua table to Redis array
                 let mut items = Vec::new();
                 for i in 1.. {
